@@ -2,7 +2,7 @@
 //!
 //! [MXC URI]: https://spec.matrix.org/latest/client-server-api/#matrix-content-mxc-uris
 
-use std::num::NonZeroU8;
+use std::num::NonZeroUsize;
 
 use ruma_identifiers_validation::{error::MxcUriError, mxc_uri::validate};
 use ruma_macros::IdZst;
@@ -34,8 +34,8 @@ impl MxcUri {
     pub fn parts(&self) -> Result<(&ServerName, &str)> {
         self.extract_slash_idx().map(|idx| {
             (
-                ServerName::from_borrowed(&self.as_str()[6..idx.get() as usize]),
-                &self.as_str()[idx.get() as usize + 1..],
+                ServerName::from_borrowed(&self.as_str()[6..idx.get()]),
+                &self.as_str()[idx.get() + 1..],
             )
         })
     }
@@ -53,7 +53,7 @@ impl MxcUri {
 
     // convenience method for calling validate(self)
     #[inline(always)]
-    fn extract_slash_idx(&self) -> Result<NonZeroU8> {
+    fn extract_slash_idx(&self) -> Result<NonZeroUsize> {
         validate(self.as_str())
     }
 }
